@@ -65,7 +65,7 @@ def reader_reads(p):
     """Results of the read calls issued by VbsReader.__next__ on its data source, in order."""
     out = []
     for e in p.events:
-        if e.kind == 'read' and e.func == VNEXT:
+        if e.kind == 'read' and e.under(VNEXT):
             out.append((e, e.data['data'], e.data['size']))
         elif e.kind == 'leave' and e.data['callee'] == 'mciipm.Unblock1014.read' and len(e.stack) >= 2 and e.stack[-2] == VNEXT:
             out.append((e, e.data['result'], None))
@@ -93,7 +93,7 @@ def same_seq(p, a, b):
 def unpacked_length(p):
     """The integer unpacked from the record prefix (IntV) or None."""
     for e in p.events:
-        if e.kind == 'ext-call' and e.data['callee'] == 'struct.unpack' and e.func == VNEXT:
+        if e.kind == 'ext-call' and e.data['callee'] == 'struct.unpack' and e.under(VNEXT):
             r = e.data['result']
             if isinstance(r, TupleV) and r.items and isinstance(r.items[0], IntV):
                 return r.items[0], e
